@@ -81,6 +81,18 @@ func vecReplay(in io.Reader, raw bool, args []string) (*Summary, error) {
 					sum.viol("Map", c, "Map/Vectorize element %d", i)
 				}
 			}
+			ga, okg := guarded(got) // a first argument with spare capacity must not be appended to
+			c2 := vec.Concat(ga, m)
+			c3 := vec.Concat(ga, got[:1])
+			if !okg() || len(c2) != 2*vc.N || !bitsEqual(c2[:vc.N], got) || !bitsEqual(c2[vc.N:], m) || len(c3) != vc.N+1 || c3[vc.N] != got[0] {
+				sum.viol("Concat", c, "Concat wrote into or aliased its first argument")
+			}
+			if one := vec.Concat(ga); len(one) > 0 {
+				one[0] += 1
+				if !okg() {
+					sum.viol("Concat", c, "Concat of a single slice returns that slice itself")
+				}
+			}
 			cc := vec.Concat(got, nil, m, got[:1])
 			if len(cc) != 2*vc.N+1 || !bitsEqual(cc[:vc.N], got) || !bitsEqual(cc[vc.N:2*vc.N], m) || cc[2*vc.N] != got[0] {
 				sum.viol("Concat", c, "Concat(got, nil, m, got[:1]) = %v", cc)
